@@ -47,8 +47,13 @@ def from_json(x):
     return x
 
 
-STMT_KINDS = {"expr", "decl", "declp", "if", "block", "for", "store", "jump", "empty", "return", "label"}
+STMT_KINDS = {"expr", "decl", "decln", "declp", "if", "block", "for", "store", "jump", "empty", "return", "label"}
 ATOM_KINDS = {"reg", "newreg", "explicit", "alias", "imm", "id", "num"}
+
+
+TIGHT_HAZARDS = ["{ tmp = a ? R1:0; }", "{ tmp = PuV ? R1:0; }", "{ tmp = RsV ? P0:1; }", "{ x = x ? V2:1; }", "{ tmp = a ? R31:3 ; }",
+                 "{ tmp = a ? C12:13; }", "{ tmp = (a ? R1:0); }", "{ RddV = R1:0; }", "{ R1:0; }", "{ tmp = a ? R1:0 : 2; }",
+                 "{ if (a) R3:2; }", "{ tmp = a?P3:0; }"]
 
 
 class EngineG(EngineBase):
@@ -106,6 +111,11 @@ class EngineG(EngineBase):
             ast = ("expr", ("assign", "=", ("atom", ("id", "tmp")), e))
             j = gen_c.to_jsonable(ast)
             texts.append({"kind": "gen", "ast": j, "pseed": 0, "pp": False, "text": print_case(j, 0, False, "spaced"), "hazard": True})
+        if ch.chance(1, 2, "tight-hazard"):
+            # the same shapes without blanks ('R1:0' is also the spelling of a register pair): whichever tree the grammar
+            # assigns, it has to be the same on every node and after every history - in particular after a rejected text
+            texts.append({"kind": "detonly", "text": ch.choice(TIGHT_HAZARDS, "tight"), "hazard": True})
+            texts.append({"kind": "broken", "text": ch.choice(BROKEN, "broken-before-tight")})
         if ch.chance(1, 2, "twins"):
             # two different ASTs whose texts differ only in whitespace: a parser (or cache) that ignores token
             # boundaries confuses them, and different nodes see them in different orders
@@ -229,6 +239,8 @@ class EngineG(EngineBase):
                     out.count("corpus_vs_cache")
                     if want != o:
                         V.append(Violation("C17", "cross-node", "differs-from-cache", "", {"text": t["text"][:300], "node": list(o), "cache": list(want)}))
+            elif t["kind"] == "detonly":
+                out.count("determinism_only_texts")
             elif t["kind"] == "broken":
                 if o[0] == "ok":
                     V.append(Violation("C17", "structure", "accepts-broken", "", {"text": t["text"]}))
